@@ -159,7 +159,7 @@ def handle (req : Json) : R Json := do
     | .error _ => pure (Json.mkObj [("r", "unresolvable")])
   | "repr" => do
     let el ← decElem (← req.getObjVal? "elem")
-    pure (Json.mkObj [("expr", encExpr (reprExpr el)), ("evalBack", Json.bool (evalBack el))])
+    pure (Json.mkObj [("expr", encExpr (reprExpr el)), ("evalBack", Json.bool (Statham.PyEval.evalBack el))])
   | "repr_property" => do
     let key ← decKey (← req.getObjVal? "key")
     let el ← decElem (← req.getObjVal? "elem")
